@@ -166,3 +166,37 @@ Proof.
   intros H. inversion H; subst. eapply room_sets_site; exact E.
 Qed.
 End Sites.
+
+(* ---- a room list that cannot bind lets every assignment pass the gate (C17) ---- *)
+Section NonBinding.
+Variables (courses : list course) (parts : list participant).
+Variable esize : nat -> nat -> nat.
+Variable shrinkf : nat -> nat -> nat.
+Notation nc := (nc courses). Notation crs := (crs courses).
+
+(* at least as many rooms as courses, and every size a course can reach (up to its maximum plus its instructors) fits the
+   smallest of the nc largest rooms *)
+Definition NonBinding (rs : list nat) : Prop :=
+  nc <= length rs /\ forall c s, c < nc -> s <= c_max (crs c) + n_instr courses c -> esize c s <= nth (nc - 1) (desc rs) 0.
+
+Lemma find_all_false {A} (f : A -> bool) l : (forall x, In x l -> f x = false) -> find f l = None.
+Proof. induction l as [|x t IH]; intros H; simpl; [reflexivity|]. rewrite (H x (or_introl eq_refl)). apply IH. intros y Hy. apply H. right. exact Hy. Qed.
+
+Theorem nonbinding_gate rs nd a : NonBinding rs ->
+  (forall c, c < nc -> people a c <= c_max (crs c) + n_instr courses c) ->
+  room_gate courses esize shrinkf (Some rs) nd a = Val None.
+Proof.
+  intros [Hlen Hfit] Hpeople. unfold room_gate, room_sets.
+  set (cs := sort_by (fun p : nat * nat => snd p) (course_sizes courses esize a)).
+  assert (Hn : length cs = nc) by (unfold cs; rewrite sort_by_length; unfold course_sizes; rewrite map_length, seq_length; reflexivity).
+  rewrite prep_rooms_length, Hn, Nat.min_id.
+  rewrite find_all_false; [reflexivity|].
+  intros j Hj. apply in_seq in Hj. apply Nat.ltb_ge. rewrite prep_rooms_nth by lia.
+  transitivity (nth (nc - 1) (desc rs) 0); [|apply desc_sorted; lia].
+  assert (Hin : In (nth (nc - 1 - j) cs (0, 0)) cs) by (apply nth_In; lia).
+  destruct (nth (nc - 1 - j) cs (0, 0)) as [c0 s0] eqn:En. simpl.
+  unfold cs in Hin. apply (Permutation_in _ (sort_by_perm _ _)) in Hin. unfold course_sizes in Hin. apply in_map_iff in Hin.
+  destruct Hin as (c & Hc & Hcin). apply in_seq in Hcin. inversion Hc; subst c0 s0.
+  unfold eff_size. destruct ((people a c =? 0) && negb (c_fixed (crs c))); [lia|]. apply Hfit; [lia|apply Hpeople; lia].
+Qed.
+End NonBinding.
